@@ -192,6 +192,41 @@ def crosstalk_ids(order, notif_pos, id0, id1):
     return "ok"
 
 
+def pick_near(i):
+    """pairs of DISTINCT ids that a lossy comparison could identify: neighbours beyond 2^53 (equal as doubles),
+    beyond 2^63/2^64, 19-digit time_ns-style ids, long strings sharing all but one position, str vs int"""
+    if i == 0:
+        return 2 ** 53, 2 ** 53 + 1
+    if i == 1:
+        return 1700000000000000000, 1700000000000000001
+    if i == 2:
+        return 2 ** 63, 2 ** 63 + 1
+    if i == 3:
+        return -(2 ** 53) - 1, -(2 ** 53)
+    if i == 4:
+        return 10 ** 30, 10 ** 30 + 1
+    if i == 5:
+        return 2 ** 64 + 5, 5
+    if i == 6:
+        return 10 ** 400, 10 ** 400 + 1     # beyond the range of a double
+    if i == 7:
+        return 1, True if False else 2       # small control pair
+    if i == 8:
+        return "9007199254740993", 9007199254740993
+    if i == 9:
+        return "1e3", "1000"
+    if i == 10:
+        return "a" * 40 + "X", "a" * 40 + "Y"
+    return "id\u00e9", "ide\u0301"           # NFC vs NFD of the same text
+
+
+def crosstalk_near(order, notif_pos, i, swap):
+    a, b = pick_near(i)
+    if swap:
+        a, b = b, a
+    return crosstalk_ids(order, notif_pos, a, b)
+
+
 # ------------------------------------------------------------------ stub vs real
 def _sig(res, handovers, wire):
     return ([(k, repr(v), d) for k, v, d in res], [(j, repr(dump(it))) for j, it in handovers], len(wire))
